@@ -213,6 +213,7 @@ func (s *state) getParentBlock(name string) *parse.BlockNode {
 
 // Method walk is the main entry-point into template execution.
 func (s *state) walk(node parse.Node) error {
+	verifExecStep(node)
 	switch node := node.(type) {
 	case *parse.ModuleNode:
 		if p := node.Parent; p != nil {
@@ -556,6 +557,7 @@ func (s *state) walkFromNode(node *parse.FromNode) error {
 
 // Method evalExpr evaluates the given expression, returning a Value or error.
 func (s *state) evalExpr(exp parse.Expr) (v Value, e error) {
+	verifExecStep(exp)
 	switch exp := exp.(type) {
 	case *parse.NullExpr:
 		return nil, nil
@@ -922,6 +924,7 @@ func execute(name string, out io.Writer, ctx map[string]Value, env *Env) error {
 	}
 	s.blocks = append(s.blocks, tree.Blocks())
 	err = s.walk(tree.Root())
+	verifExecEnd(s, name, out, err)
 	if err != nil {
 		return err
 	}
